@@ -94,6 +94,15 @@ func abstractListProfile(r *rand.Rand) (gen.Profile, gen.DataCfg) {
 	return p, d
 }
 
+// manyServicesProfile: up to 9 services (start-up introspects them concurrently; anything done per window or per
+// index of the service list only shows beyond a handful of services).
+func manyServicesProfile(r *rand.Rand) (gen.Profile, gen.DataCfg) {
+	p, d := stdProfile(r)
+	p.MaxServices = 9
+	p.Entities, p.RootFields = [2]int{3, 6}, [2]int{5, 9}
+	return p, d
+}
+
 var c01Configs = []rig.Config{
 	{}, {Hint: true}, {Merger: "sanitize"}, {Merger: "sanitize", Hint: true},
 	{Planner: "cached", TTLms: 3600000}, {Planner: "cached", TTLms: 3600000, Hint: true, Merger: "sanitize"},
@@ -131,6 +140,9 @@ func (p c01) Gen(c *run.Ctx, idx int) (json.RawMessage, error) {
 	}
 	if uidx%6 == 3 {
 		cu, err = universe(c.Seed, "abslist", uidx, abstractListProfile)
+	}
+	if uidx%6 == 2 {
+		cu, err = universe(c.Seed, "many", uidx, manyServicesProfile)
 	}
 	if err != nil {
 		return nil, err
@@ -176,6 +188,9 @@ func (p c01) Gen(c *run.Ctx, idx int) (json.RawMessage, error) {
 		return nil, nil
 	}
 	cfg := c01Configs[r.Intn(len(c01Configs))]
+	if uidx%6 == 2 && idx%2 == 0 {
+		cfg = rig.Config{Introspect: "e2e"} // the real introspector over all the services
+	}
 	cs := opCase{U: cu.spec, Cfg: cfg, Op: *op, UIdx: uidx}
 	if idx%20 == 11 {
 		if e, j := genAbstractHistoryProbe(r, cu); e != nil {
